@@ -6,7 +6,15 @@ open SophiaProofs.C19
 #print axioms confined_partial
 #print axioms retry_confined
 #print axioms confined_repaired
+#print axioms confined_of_guard
+#print axioms guard_present
 #print axioms confined_current
+#print axioms current_status
+#print axioms unguarded_refuted
+#print axioms confined_files
+#print axioms link_confined
+#print axioms ctx_confined
+#print axioms reads_only_in_get
 #print axioms escape_dotdot
 #print axioms escape_absolute
 #print axioms escape_retry
